@@ -151,6 +151,44 @@ func IterationMustExec(c *core.Ctx, rule string, fn *ssa.Function, header, body 
 	}
 	r.RunFromBlock(body)
 	if r.BlockEntered(header) {
+		// the instruction may sit in a helper the iteration calls: the call is a barrier and every exit
+		// of the helper that skipped it must make the caller leave the iteration
+		if lifted := liftInstr(fn, pred, 0); len(lifted) > 0 {
+			mk := func() *ir.Reach {
+				x := ir.NewReach(fn)
+				for in := range r.Barrier {
+					x.Barrier[in] = true
+				}
+				return x
+			}
+			ok := true
+			r1 := mk()
+			for _, lc := range lifted {
+				r1.Barrier[lc.call] = true
+			}
+			r1.RunFromBlock(body)
+			if r1.BlockEntered(header) {
+				ok = false
+			}
+			for _, lc := range lifted {
+				for _, e := range lc.bad {
+					r2 := mk().CutEdges(scenarioCuts(fn, lc.call, e.known))
+					for _, o := range lifted {
+						if o.call != lc.call {
+							r2.Barrier[o.call] = true
+						}
+					}
+					r2.Run(lc.call)
+					if r2.BlockEntered(header) {
+						ok = false
+					}
+				}
+			}
+			if ok {
+				c.Hold(rule, fn, construct, c.P.Rel(header.Instrs[len(header.Instrs)-1].Pos()), fmt.Sprintf("%d instruction(s), %d through helper(s)", n, len(lifted)))
+				return true
+			}
+		}
 		c.Violate(rule, fn, construct, c.P.Rel(header.Instrs[len(header.Instrs)-1].Pos()),
 			fmt.Sprintf("an iteration can complete without executing %s (%d such instruction(s) in function)", what, n))
 		return false
